@@ -1,16 +1,31 @@
 #!/bin/sh
 # tools/try_benign.sh <dir with patch.diff> [Cxx ...] : apply a behaviour-preserving change in a scratch worktree and run the
-# given checks (default: all 20) against it; every check must exit 0 (anything else is a false alarm to be explained).
+# given checks against it (default: every check whose property is anchored in a file the patch touches); every check
+# must exit 0 (anything else is a false alarm to be explained).
 D="$1"; shift
-PROPS="$*"; [ -z "$PROPS" ] && PROPS="C01 C02 C03 C04 C05 C06 C07 C08 C09 C10 C11 C12 C13 C14 C15 C16 C17 C18 C19 C20"
+PROPS="$*"
+if [ -z "$PROPS" ]; then
+  PROPS=$(python3 - "$D/patch.diff" <<'PY'
+import json, re, sys
+files = set(re.findall(r'^\+\+\+ b/(\S+)', open(sys.argv[1]).read(), re.M))
+out = []
+for l in open('/verif/properties.jsonl'):
+    p = json.loads(l)
+    if files & set(p['anchors']['files']):
+        out.append(p['id'])
+print(' '.join(out))
+PY
+)
+fi
 WT=/tmp/benwt_$$
 git -C /repo worktree add -q --detach "$WT" HEAD || exit 2
 trap 'git -C /repo worktree remove --force "$WT" >/dev/null 2>&1' EXIT
 cd "$WT" && git apply "$D/patch.diff" || { echo "PATCH DOES NOT APPLY"; exit 2; }
 cd /verif
+echo "checks: $PROPS"
 for P in $PROPS; do
   VERIF_REPO="$WT" ./check "$P" > /tmp/benrun_$$.log 2>&1; rc=$?
-  echo "$P exit=$rc $(grep -E 'extraction=' /tmp/benrun_$$.log | sed 's/.*extraction=/extraction=/' | head -1)"
+  echo "$P exit=$rc $(grep -E 'extraction=' /tmp/benrun_$$.log | sed 's/.*tier=\([a-z]*\).*extraction=\([a-z]*\).*/tier=\1 extraction=\2/' | head -1)"
   [ $rc -ne 0 ] && grep -E "VIOLATION|mismatch|HARNESS|Error" /tmp/benrun_$$.log | head -4 | cut -c1-250
 done
 rm -f /tmp/benrun_$$.log
